@@ -793,6 +793,25 @@ def run_program(spec):
     return out
 
 
+def collect_objs(world):
+    """id(real object) -> (path, shadow node) for every object node of the tree"""
+    objs = {}
+
+    def walk(node, path):
+        if node["k"] == "o":
+            try:
+                objs[id(world.real(path))] = (path, node)
+            except Exception:
+                pass
+            for fn, ch in node["fields"].items():
+                walk(ch, tuple(path) + (fn,))
+        elif node["k"] == "l":
+            for i, ch in enumerate(node["elems"]):
+                walk(ch, tuple(path) + (i,))
+    walk(world.shadow, ())
+    return objs
+
+
 def decide_call(world, spec, oi, op, q, opts, SolveFailure):
     findings = []
     # the state the user sees right before the call
@@ -818,6 +837,11 @@ def decide_call(world, spec, oi, op, q, opts, SolveFailure):
         del world.ns["EVENTS"][:]
     _state["fm_paths_cb"] = world.fm_paths
     _state["fm_path_snap"] = {}
+    # the objects of the tree as they are when the call starts (a smaller solved size may drop list elements during the call)
+    try:
+        world.pre_call_objs = collect_objs(world)
+    except Exception:
+        world.pre_call_objs = {}
     with _quiet():
         exc = _do_call(world, op)
     _state["fm_paths_cb"] = None
